@@ -163,7 +163,7 @@ def model_supported(req):
     return len(toks) >= 2 and toks[1] in MODEL_SUITES
 
 
-MODEL_SUITES = set(TOY_SUITES) | {"ed25519", "ed448", "p256", "ristretto255", "secp256k1"}
+MODEL_SUITES = set(TOY_SUITES) | {"ed25519", "ed448", "p256", "ristretto255", "secp256k1", "secp256k1-tr"}
 
 
 def batch_parallel(argv, lines, nproc=14):
